@@ -150,7 +150,8 @@ func findEndTime(moov *mp4.MoovBox, durationMS int) (endTime, endTimescale uint6
 	//trakDur := float64(trak.Tkhd.Duration) / float64(moov.Mvhd.Timescale)
 	//fmt.Printf("video trak %d duration = %.3fs\n", trak.Tkhd.TrackID, trakDur)
 	endTimescale = uint64(syncTrak.Mdia.Mdhd.Timescale)
-	endTime = uint64(durationMS) * endTimescale / 1000
+	// round up so that a sample starting before the requested duration is not taken as being at or after it
+	endTime = (uint64(durationMS)*endTimescale + 999) / 1000
 
 	stbl := syncTrak.Mdia.Minf.Stbl
 	stts := stbl.Stts // TimeToSampleBox
@@ -237,7 +238,8 @@ func findTrakEnds(traks []*mp4.TrakBox, endTime, endTimescale uint64) (map[uint3
 		trackTimeScale := trak.Mdia.Mdhd.Timescale
 		trackEndTime := endTime
 		if trackTimeScale != uint32(endTimescale) {
-			trackEndTime = endTime * uint64(trackTimeScale) / endTimescale
+			// round up so that a sample starting before endTime (but after the truncated value) is kept
+			trackEndTime = (endTime*uint64(trackTimeScale) + endTimescale - 1) / endTimescale
 		}
 		stts := stbl.Stts
 		endSampleNr, err := stts.GetSampleNrAtTime(trackEndTime)
